@@ -12,7 +12,7 @@ import (
 
 func init() {
 	register("C43", []string{".", "./sstable/...", "./objstorage/...", "./internal/compact", "./internal/overlap", "./internal/manifest", "./wal", "./record", "./vfs/atomicfs", "./valsep"}, runC43)
-	propExplain["C43"] = "Decides error-discipline clauses of C43: (N1) wherever consumer code treats a nil result of a positioning call on an internal iterator as 'exhausted', every path from that nil edge to a return consults the iterator's Error() (or its consumed Close()) — an sstable iterator returns nil on a read error; (S1) after Finish or Abort was called on an objstorage.Writable no further method of it is reachable unless the variable was re-assigned; (E1) the error results of read and durability callees are never dropped; (O1) the user iterator's positioning methods short-circuit on a sticky error; (O2) a failed flush/compaction goes through the failure handler and never refreshes the read state. Does not decide result correctness under faults (behaviour)."
+	propExplain["C43"] = "Decides error-discipline clauses of C43: (N1) wherever consumer code treats a nil result of a positioning call on an internal iterator as 'exhausted', every path from that nil edge to a return consults the iterator's Error() (or its consumed Close()) — an sstable iterator returns nil on a read error; (S1) after Finish or Abort was called on an objstorage.Writable no further method of it is reachable unless the variable was re-assigned; (E1) the error results of read and durability callees are never dropped; (O1) the user iterator's positioning methods short-circuit on a sticky error; (O2) a failed flush/compaction goes through the failure handler and never refreshes the read state. (E3) every engine function that classifies an error by identity (== a sentinel, record.IsInvalidRecord) receives it unwrapped: no function in the producers' static call trees (sticky error fields followed) returns a wrapped callee error. Does not decide result correctness under faults (behaviour)."
 	propTechnique["C43"] = "SSA obligation-as-fact dataflow (nil-means-exhausted), typestate reachability, error-result consumption (ERRFLOW)"
 }
 
@@ -23,7 +23,7 @@ var n1Exceptions = map[string]string{
 	"p.fragmentRangeDels": "only called with the in-memory iterator of a batch / flushable batch (newRangeDelIter paths in batch.go), which cannot fail",
 	"p.fragmentRangeKeys": "only called with the in-memory iterator of a batch / flushable batch, which cannot fail",
 	"p/sstable.ReadAll":   "test utility (sstable/test_utils.go), not used by the engine",
-	"p.newFlush": "bounds closure over flushables: ingested flushables return before the loop, so only memtable / flushable-batch iterators (in-memory, cannot fail) reach it",
+	"p.newFlush":          "bounds closure over flushables: ingested flushables return before the loop, so only memtable / flushable-batch iterators (in-memory, cannot fail) reach it",
 }
 
 func implementsIterator(t types.Type, iface *types.Interface) bool {
@@ -40,6 +40,9 @@ func implementsIterator(t types.Type, iface *types.Interface) bool {
 }
 
 func runC43(c *Ctx) {
+	if n := surveyErrIdentity(c, "C43.E3", nil, "rec.IsInvalidRecord"); n < 5 {
+		c.Unresolved("C43.E3", fmt.Sprintf("only %d identity-comparing consumers found", n))
+	}
 	runC43N1(c)
 	runC43S1(c)
 	// E1: read + durability callees
